@@ -23,6 +23,7 @@ stated, refuted by a kernel-checked witness, and proved under the explicit hypot
 import Cascette.Proofs.Lru
 import Cascette.Proofs.LruPtr
 import Cascette.Proofs.LruRefine
+import Cascette.Proofs.LruPersist
 namespace Cascette.Props.C17
 open Cascette
 open Cascette.Spec.Lru
@@ -486,5 +487,146 @@ example : (LruPtr.run (fun _ => LruPtr.zeros16) (LruPtr.Ptr.init 2)
       (fun r => (r.2, r.1.slots, r.1.freeList, LruPtr.len r.1)) =
     some ([.bool true, .bool true, .bool true, .evicted 1 1, .ok, .ok, .bool true, .ok, .cycle 1 0 0 1],
       some [1], [0], 1) := by decide
+
+
+/-! ## the persistence clause in history order: a reload sees the checkpoint written LAST
+
+`Spec/LruPersist`: the ghost `Track` records which checkpoint was written last (its file name
+and the table it holds) without ever comparing generations; `XOp` = the ten operations plus
+`shutdown`.  The refinement theorems above hold whatever the generation counters do (spec and
+models share that bookkeeping), so they cannot see a manager whose counters run backwards; this
+clause can: it is what makes "newest file" mean "last state saved". -/
+
+open Cascette.Proofs.LruPersist
+open Cascette.Model.LruPersist
+
+/-- the ghost run without the domain restriction `allowed` (for the full statement). -/
+def trackAll (s : Store κ) (t : Track κ) : List (XOp κ) → Store κ × Track κ
+  | [] => (s, t)
+  | o :: os => trackAll (xstep s o).1 (track s t o) os
+
+/-- the clause for one history: if a checkpoint has been written, `run_cycle` brings back the
+table of the one written last. -/
+abbrev ReloadSeesLast (cap : Nat) (ops : List (XOp κ)) : Prop :=
+  let r := trackAll (Store.init cap) Track.init ops
+  r.2.last.map (·.2) = none ∨ r.2.last.map (·.2) = some (step r.1 (.runCycle 0 0)).1.order
+
+/-- FULL STATEMENT (`reload_sees_last_checkpoint`): `∀ cap ops, ReloadSeesLast cap ops`.  FALSE on
+the tree, by the design of the generation scheme: a manager that checkpoints after
+`load_from_disk` of an OLDER generation (or a new manager that checkpoints before it has run a
+cycle) writes under a generation of its own, below a file that is still there, and the next
+`run_cycle` restores that older file.  Kernel-checked: generation 1 `[]`, generation 3 `[]`,
+load 1, touch, checkpoint (file 1 = `[7]`, written last) — `run_cycle` restores file 3. -/
+theorem reload_sees_last_checkpoint_counter : ¬ (∀ (cap : Nat) (ops : List (XOp Nat)), ReloadSeesLast cap ops) := by
+  intro h
+  have := h 2 [.op .checkpoint, .op .bump, .op .bump, .op .checkpoint, .op (.load 1), .op (.touch 7), .op .checkpoint]
+  revert this
+  decide
+
+/-- the same with a restart instead of the rollback: a new manager (`reopen`) that checkpoints
+without having looked at the directory. -/
+theorem reload_sees_last_checkpoint_counter_reopen :
+    ¬ ReloadSeesLast (κ := Nat) 2 [.op .bump, .op .bump, .op (.touch 5), .op .checkpoint, .op .reopen, .op (.touch 7), .op .checkpoint] := by
+  decide
+
+/-- PROVED PART, every history in which checkpoints (`checkpoint_to_disk`, `shutdown`) are written
+only by a manager that is in step with the directory (`allowed`: it has run a cycle or loaded the
+file written last since it was constructed / since it loaded any other file) — any interleaving
+of touch / remove / evict_tail / evict_to_target / reset / bump_generation (any number of times) /
+load_from_disk of ANY generation / run_cycle / reopen / shutdown around them, any capacity, any
+key type, shorter than 2^64 operations (no wrap of the counter):
+`find_latest_lru_file` names the file of the checkpoint written last; `run_cycle` restores exactly
+that checkpoint's table (then evicts to the limit) and reports its length as loaded — or restores
+nothing when no checkpoint has been written; `load_from_disk` of that name gives that table. -/
+theorem reload_sees_last_checkpoint_partial (cap : Nat) (ops : List (XOp κ)) (hlen : ops.length + 1 < 2 ^ 64)
+    (s : Store κ) (t : Track κ) (hrun : trackRun (Store.init cap) Track.init ops = some (s, t))
+    (limit avg : Nat) :
+    s = (xrun (Store.init cap) ops).1 ∧
+    Files.latest s.files = t.name ∧
+    ((step s (.runCycle limit avg)).1.order, (step s (.runCycle limit avg)).2) =
+      cycleOf s.order (t.last.map (·.2)) limit avg ∧
+    ∀ gl snap, t.last = some (gl, snap) → step s (.load gl) = ({ s with order := snap, gen := gl }, .ok) := by
+  have hinv := trackRun_pinv ops _ _ 1 (pinv_init cap) (by omega) _ hrun
+  obtain ⟨h1, h2⟩ := runCycle_restores_last hinv limit avg
+  exact ⟨trackRun_store ops _ _ _ hrun, (latest_is_last_written hinv).1, h1, h2⟩
+
+/-- what the in-memory operations — `reset` among them — owe the clause: they change neither
+`generation` nor `prev_generation` nor the directory (textbook store; the models share this
+bookkeeping field by field, and the correspondence run compares `gen=` / `prev=` on every line). -/
+theorem reset_keeps_generation (s : Store κ) :
+    (step s .reset).1.gen = s.gen ∧ (step s .reset).1.prev = s.prev ∧ (step s .reset).1.files = s.files :=
+  inmem_keeps_generation s .reset rfl
+
+/-- the clause is not vacuous, and it is sharp at `reset`: the witness history of the seeded
+change C17-3c (touch, bump, bump, checkpoint, reset, touch, checkpoint, touch) is inside the
+clause and `run_cycle` restores the second checkpoint — a test. -/
+example : (trackRun (Store.init 3) Track.init ([.op (.touch 1), .op .bump, .op .bump, .op .checkpoint, .op .reset,
+      .op (.touch 2), .op .checkpoint, .op (.touch 3)] : List (XOp Nat))).map
+    (fun r => (r.2.last, (step r.1 (.runCycle 0 0)).1.order, Files.latest r.1.files)) =
+    some (some (3, [2]), [2], some 3) := by decide
+
+/-- `shutdown` on the code as written and every other operation, ALL histories over non-zero
+9-byte keys: the pointer layer never panics, answers what the textbook store answers
+(`shutdown` = bump, checkpoint, scan_directory), and holds the textbook order. -/
+theorem ptr_refines_textbook_full_shutdown (md5 : Bytes → Bytes) (hmd5 : ∀ x, (md5 x).length = 16) (cap : Nat)
+    (hcap : cap ≤ LruPtr.SENT) (ops : List (XOp LruPtr.Key)) (hops : XKeysOk ops) :
+    let t := xrun (Store.init cap) ops
+    ∃ s, ptrXRun md5 (LruPtr.Ptr.init cap) ops = some (s, t.2) ∧
+      LruPtr.iter s = some t.1.order ∧ LruPtr.len s = t.1.len ∧
+      (∀ k, LruPtr.contains s k = t.1.contains k) ∧ s.gen = t.1.gen ∧ s.prev = t.1.prev := by
+  obtain ⟨s, hrun, hsim2⟩ := xrun_sim2 md5 hmd5 ops _ _ (sim2_init md5 cap hcap) hops
+  obtain ⟨href, _, hnz⟩ := seqXRun_refines LruPtr.zeroKey ops (inv_init cap) (noZero_init LruPtr.zeroKey cap)
+    (xkeysOk_noZero hops)
+  have habs : (abs (Seq.init cap : Seq LruPtr.Key)) = Store.init cap := rfl
+  rw [habs] at href
+  have hsim := hsim2.sim
+  obtain ⟨_, _, _, _, _, hg, hp⟩ := hsim2.sim
+  refine ⟨s, by rw [hrun, href], ?_, ?_, ?_, ?_, ?_⟩
+  · rw [iter_sim hsim, href]; exact congrArg some (filter_ne_zero hnz.order)
+  · rw [len_sim hsim, href]; rfl
+  · intro k; rw [contains_sim hsim k, href]; rfl
+  · rw [href]; exact hg.symm
+  · rw [href]; exact hp.symm
+
+/-- the persistence clause for the code as written: after every history of the clause over
+non-zero 9-byte keys (through the real `.lru` codec, `find_latest_lru_file`, the `is_active`
+rebuild, `scan_directory`), `run_cycle limit avg` does not panic, answers the statistics of
+"restore the checkpoint written last, evict to the limit", and afterwards `for_each_entry`,
+`len` and `contains` are those of that checkpoint's table after the eviction. -/
+theorem ptr_reload_sees_last_checkpoint (md5 : Bytes → Bytes) (hmd5 : ∀ x, (md5 x).length = 16) (cap : Nat)
+    (hcap : cap ≤ LruPtr.SENT) (ops : List (XOp LruPtr.Key)) (hops : XKeysOk ops)
+    (hlen : ops.length + 1 < 2 ^ 64) (st : Store LruPtr.Key) (t : Track LruPtr.Key)
+    (htr : trackRun (Store.init cap) Track.init ops = some (st, t)) (limit avg : Nat) :
+    let want := cycleOf st.order (t.last.map (·.2)) limit avg
+    ∃ s outs s', ptrXRun md5 (LruPtr.Ptr.init cap) ops = some (s, outs) ∧
+      LruPtr.runCycle md5 s limit avg = some (s', want.2) ∧
+      LruPtr.iter s' = some want.1 ∧ LruPtr.len s' = want.1.length ∧
+      ∀ k, LruPtr.contains s' k = decide (k ∈ want.1) := by
+  obtain ⟨s, hrun, hsim2⟩ := xrun_sim2 md5 hmd5 ops _ _ (sim2_init md5 cap hcap) hops
+  obtain ⟨href, hinv, hnz⟩ := seqXRun_refines LruPtr.zeroKey ops (inv_init cap) (noZero_init LruPtr.zeroKey cap)
+    (xkeysOk_noZero hops)
+  have habs : (abs (Seq.init cap : Seq LruPtr.Key)) = Store.init cap := rfl
+  rw [habs] at href
+  obtain ⟨hst, _, hcyc, _⟩ := reload_sees_last_checkpoint_partial cap ops hlen st t htr limit avg
+  have hq : abs (seqXRun LruPtr.zeroKey (Seq.init cap) ops).1 = st := by rw [hst, href]
+  obtain ⟨s', hrc, hsim'⟩ := runCycle_sim2 md5 hmd5 s _ limit avg hsim2
+  have hstep := step_refines LruPtr.zeroKey (.runCycle limit avg) hinv hnz
+  rw [hq] at hstep
+  have hnz' := step_noZero LruPtr.zeroKey (.runCycle limit avg) (fun e => by cases e) hnz
+  have ho : (LruSeq.step LruPtr.zeroKey (seqXRun LruPtr.zeroKey (Seq.init cap) ops).1 (.runCycle limit avg)).1.order
+      = (cycleOf st.order (t.last.map (·.2)) limit avg).1 := by
+    have := congrArg (fun r => r.1.order) hstep
+    simp only [abs] at this
+    rw [← this]; exact congrArg Prod.fst hcyc
+  have hout : (LruSeq.step LruPtr.zeroKey (seqXRun LruPtr.zeroKey (Seq.init cap) ops).1 (.runCycle limit avg)).2
+      = (cycleOf st.order (t.last.map (·.2)) limit avg).2 := by
+    have := congrArg Prod.snd hstep
+    simp only at this
+    rw [← this]; exact congrArg Prod.snd hcyc
+  refine ⟨s, _, s', hrun, by rw [hrc, hout], ?_, ?_, ?_⟩
+  · rw [iter_sim hsim'.sim]; simp only [Seq.iter]; rw [filter_ne_zero hnz'.order, ho]
+  · rw [len_sim hsim'.sim]; simp only [Seq.len]; rw [ho]
+  · intro k; rw [contains_sim hsim'.sim k]; simp only [Seq.contains]; rw [ho]
+    exact decide_eq_decide.mpr Iff.rfl
 
 end Cascette.Props.C17
